@@ -1112,7 +1112,14 @@ impl Monitor for C20 {
                         let first = &swaps[0];
                         let abs0 = p0.size.unsigned_abs();
                         let share = Big::u(p0.notional).mul(Big::u(first.base.min(abs0))).div(Big::u(abs0)).to_u128().unwrap_or(u128::MAX);
-                        let allowed = first.quote.max(share.saturating_mul(2).saturating_sub(first.quote)).saturating_add(2);
+                        // which booking applies follows from the kind of trade: reductions, the closing leg of a reversal and partial
+                        // closes take out the exchanged quote amount; only a whole close (and a liquidation, which this rule does
+                        // not pin down further) may book the position's own open notional instead
+                        let by_notional = path.starts_with("close_position") || path.contains("liquidation");
+                        let allowed = if by_notional { first.quote.max(share.saturating_mul(2).saturating_sub(first.quote)) } else { first.quote }.saturating_add(2);
+                        if !by_notional {
+                            r.count("R5-exposure-reducing-trades-pinned-to-the-exchanged-quote");
+                        }
                         let credit = if swaps.len() > 1 { swaps[1].quote } else { 0 };
                         let floor = oi0.saturating_sub(allowed).saturating_add(credit);
                         r.count("R5-exposure-reducing-trades");
